@@ -197,15 +197,14 @@ theorem opLock_pol (db : DB) (c : Cmd) (hc : c.key = P.K → P.D c) (h : PolInv 
     have hm := classifyLock_mem db c h' (by rw [hb]; rfl)
     have hf := classifyLock_update_flag db c h' hb
     simp only [applyLock]
-    refine setKey_pol (hp.of_keys_eq (updateHold_db_keys _ _ _)) ?_
+    refine wake_setKey_pol _ hp (updateHold_db_keys _ _ _) (replace_inv hi hm (updateHold_depth _ _ _)) ?_
     exact ⟨hk.1, fun e => ⟨(hk.2 e).1, P.hp_update _ c h' _ hi (hk.2 e).2 hm (hc' e) hf (updateHold_cmd _ _ _)⟩⟩
   | relock h' =>
     have hm := classifyLock_mem db c h' (by rw [hb]; rfl)
     obtain ⟨hfind, hdep⟩ := classifyLock_relock_facts db c h' hb
     simp only [applyLock]
-    apply setKey_pol
-    · exact hp.of_keys_eq (by simp [updateHold_db_keys])
-    · exact ⟨hk.1, fun e => ⟨(hk.2 e).1,
+    refine wake_setKey_pol _ hp (by simp [updateHold_db_keys]) (relock_inv hi hm (by rw [updateHold_depth])) ?_
+    exact ⟨hk.1, fun e => ⟨(hk.2 e).1,
         P.hp_relock _ c h' _ hi (hk.2 e).2 hm (hc' e) (findHolder_lockId hfind) hdep (updateHold_cmd _ _ _)⟩⟩
   | grant =>
     simp only [applyLock]
@@ -244,7 +243,7 @@ theorem opUnlock_pol (db : DB) (c : Cmd) (h : PolInv P db) : PolInv P (opUnlock 
   | stateError | notLocked | unown | cancelNone => exact hp.of_keys_eq rfl
   | cancel w =>
     simp only [applyUnlock]
-    exact setKey_pol (hp.of_keys_eq rfl) (hk.waiters_sub _ _ removeWaiter_sub)
+    exact wake_setKey_pol _ hp rfl (waiters_inv hi _ _) (hk.waiters_sub _ _ removeWaiter_sub)
   | dec h' c' =>
     have hm := classifyUnlock_mem db c h' (by rw [hb]; rfl)
     have hd := classifyUnlock_dec db c c' h' hb
@@ -262,7 +261,7 @@ theorem opUnlock_pol (db : DB) (c : Cmd) (h : PolInv P db) : PolInv P (opUnlock 
 theorem fireTimeout_pol (db : DB) (key : Nat) (w : Waiter) (h : PolInv P db) : PolInv P (fireTimeout db key w).1 := by
   refine ⟨fireTimeout_inv db key w h.1, ?_⟩
   unfold fireTimeout
-  exact setKey_pol (h.2.of_keys_eq rfl) ((getKey_pol h.2 key).waiters_sub _ _ removeWaiter_sub)
+  exact wake_setKey_pol _ h.2 rfl (waiters_inv (getKey_inv h.1 key) _ _) ((getKey_pol h.2 key).waiters_sub _ _ removeWaiter_sub)
 
 theorem fireExpire_pol (db : DB) (key : Nat) (hd : Hold) (hm : hd ∈ (db.getKey key).holders) (h : PolInv P db) :
     PolInv P (fireExpire db key hd).1 := by
